@@ -151,6 +151,11 @@ def funnel(chk, program):
             if isinstance(n, ast.Call) and isinstance(n.func, ast.Attribute) and n.func.attr in allowed:
                 q = _enclosing(n)
                 ok = mname == 'decoder' and q in allowed[n.func.attr]
+                if not ok and n.func.attr == '_decode' and mname == 'decoder' and q.startswith('NMEA2000Decoder.decode_') and q.count('.') == 1:
+                    # one more front-end next to the five known ones: it goes through the shared path; what it does before (its own wire format) has no
+                    # reference here and is not judged
+                    chk.unit('front_end_without_reference', q)
+                    continue
                 chk.check(ok, 'FE-FUNNEL', f"{mname}.{q}->{n.func.attr}", file=mod.rel(), line=n.lineno, func=q, expected=f"called only from {sorted(allowed[n.func.attr])}", found=f"{mname}.{q}")
 
 def endian_semantic(chk, program):
